@@ -74,8 +74,8 @@ class SynchronousDeferredRunTest(_DeferredRunTest):
     Deferreds that have already fired.
     """
 
-    def _run_user(self, function, *args):
-        d = defer.maybeDeferred(function, *args)
+    def _run_user(self, function, *args, **kwargs):
+        d = defer.maybeDeferred(function, *args, **kwargs)
         d.addErrback(self._got_user_failure)
         result = extract_result(d)
         return result
@@ -459,13 +459,13 @@ class AsynchronousDeferredRunTest(_DeferredRunTest):
         if successful:
             self.result.addSuccess(self.case, details=self.case.getDetails())
 
-    def _run_user(self, function, *args):
+    def _run_user(self, function, *args, **kwargs):
         """Run a user-supplied function.
 
         This just makes sure that it returns a Deferred, regardless of how the
         user wrote it.
         """
-        d = defer.maybeDeferred(function, *args)
+        d = defer.maybeDeferred(function, *args, **kwargs)
         return d.addErrback(self._got_user_failure)
 
 
